@@ -24,6 +24,7 @@ func c10(c *eng.Ctx, r *eng.Report) {
 		"R10.4 the jump bitmap consulted is the running code's own: the frame-shared map is touched only under CodeHash != zero and keyed by c.CodeHash, every bitmap stored or consulted is codeBitmap(c.Code) or that entry, only isCode/NewContract write the two fields, and codeBitmap marks exactly the operands of PUSH1..PUSH32; " +
 		"R10.5 fresh memory is zero: Memory.store is assigned only in Resize and only as append(m.store, make([]byte, n)...), NewMemory returns a fresh object and Run takes one per frame. " +
 		"R10.6 every memory-touching standard opcode reads and writes exactly the regions its definition names (offset/length operands as entry stack slots, compared with a reference table from the Yellow Paper and the EIPs). " +
+		"R10.7 the return-data buffer is a private copy (Run copies the operation's result, or every handler of a `returns` row hands back a copy). " +
 		"Not decided: the 256-bit arithmetic itself (holiman/uint256), KECCAK, the bytes copied by Memory.Set/Copy, the bit arithmetic of bitvec.set/set8."
 	r.Assume = []string{"holiman/uint256 v1.1.1 methods implement their documented semantics (z.Op(x,y) sets z = x op y)", "Yellow Paper (δ,α) table transcribed in rules/vmrows.go"}
 	rows := analyseRows(c, r, "R10.1")
@@ -33,6 +34,7 @@ func c10(c *eng.Ctx, r *eng.Report) {
 	c10Jumps(c, r, rows)
 	c10DumpMem(rows)
 	c10MemOperands(c, r, rows)
+	c10ReturnData(c, r, rows)
 	c10Bitmap(c, r)
 	c10Memory(c, r)
 }
@@ -706,4 +708,52 @@ func c10MemOperands(c *eng.Ctx, r *eng.Report, rows []rowFx) {
 		key := fmt.Sprintf("row:%s@%s", rf.Row.Name, rf.Row.Where)
 		r.Check(strings.Join(got, "; ") == strings.Join(w, "; "), rule, key, c.Pos(rf.Row.Pos), "memory regions touched: "+strings.Join(w, "; "), rf.Row.Name+" touches memory at ["+strings.Join(got, "; ")+"] but its definition names ["+strings.Join(w, "; ")+"] (r=read, w=write, c=copy; offset and length as entry stack slots): the opcode reads or writes the wrong bytes")
 	}
+}
+
+// c10ReturnData: the return-data buffer is a private copy. Either Run copies
+// what the operation hands back (today), or — if it stores the result as is —
+// every handler of a row flagged `returns` returns a copy. A precompile such as
+// identity hands back a window into the caller's memory; without a copy a later
+// MSTORE changes what RETURNDATACOPY delivers.
+func c10ReturnData(c *eng.Ctx, r *eng.Report, rows []rowFx) {
+	const rule = "R10.7"
+	r.Min(rule, 1)
+	isCopy := func(v ssa.Value) bool {
+		d := eng.Desc(v)
+		return eng.IsNilConst(v) || strings.Contains(d, "common.CopyBytes(") || strings.Contains(d, ".GetCopy(") || strings.HasPrefix(d, "builtin:append(")
+	}
+	n := 0
+	for _, fn := range c.PkgFuncs("vm") {
+		if c.IsTestFunc(fn) {
+			continue
+		}
+		for i, st := range eng.FieldStores(fn, "vm.EVMInterpreter", "returnData") {
+			n++
+			v := st.(*ssa.Store).Val
+			key := fmt.Sprintf("returnData-writer:%s#%d", eng.FuncName(fn), i)
+			if isCopy(v) {
+				r.Pass(rule, key, c.Pos(st.Pos()), "stores nil or a private copy")
+				continue
+			}
+			// stored as handed back by operation.execute: then every `returns` handler must return a copy
+			bad := ""
+			for _, rf := range rows {
+				if !rf.Row.Flags["returns"] || rf.Row.Exec == nil || rf.Row.Superseded {
+					continue
+				}
+				for _, re := range eng.Returns(rf.Row.Exec) {
+					rv := eng.RetValue(re.Ret, 0)
+					if !isCopy(rv) {
+						bad = rf.Row.Name + " returns " + eng.Desc(rv)
+					}
+				}
+			}
+			if bad == "" {
+				r.Pass(rule, key, c.Pos(st.Pos()), "stores the operation's result, and every `returns` handler returns a copy")
+			} else {
+				r.Fail(rule, key, c.Pos(st.Pos()), eng.FuncName(fn)+" stores the operation's result in returnData without copying it, and "+bad+" — not a private copy: a callee's output that is a window into the caller's memory (identity precompile) then changes under RETURNDATACOPY when that memory is overwritten")
+			}
+		}
+	}
+	r.Check(n >= 2, rule, "returnData-writer:any", "", fmt.Sprintf("%d writers of returnData", n), "fewer than two stores to EVMInterpreter.returnData found (reset at frame entry and the store after a returning operation expected)")
 }
